@@ -23,6 +23,8 @@ use crate::{
     record::Feature,
 };
 
+const MAX_PREALLOCATED_RECORD_COUNT: usize = 1 << 16;
+
 /// A container slice.
 ///
 /// A slice contains a header, a core data block, and one or more external blocks. This is where
@@ -134,22 +136,29 @@ impl<'c> Slice<'c> {
 
         let substitution_matrix = compression_header.preservation_map().substitution_matrix();
 
-        let mut records = vec![Record::default(); self.header.record_count()];
+        // The record count is untrusted: reserve a bounded amount and let the list grow with the
+        // records that are actually decoded.
+        let record_count = self.header.record_count();
+        let mut records = Vec::with_capacity(record_count.min(MAX_PREALLOCATED_RECORD_COUNT));
 
-        for record in &mut records {
-            reader.read_record(record)?;
+        for _ in 0..record_count {
+            let mut record = Record::default();
+
+            reader.read_record(&mut record)?;
 
             record.header = Some(header);
 
             if !record.bam_flags.is_unmapped() && !record.cram_flags.sequence_is_missing() {
                 record.reference_sequence = if reference_sequence_context.is_many() {
-                    get_record_reference_sequence(&reference_sequence_repository, header, record)?
+                    get_record_reference_sequence(&reference_sequence_repository, header, &record)?
                 } else {
                     slice_reference_sequence.clone()
                 };
 
                 record.substitution_matrix = substitution_matrix.clone();
             }
+
+            records.push(record);
         }
 
         // Names are only generated for containers that do not preserve them. Otherwise, a missing
